@@ -4,7 +4,7 @@ package clone
 
 // C10: Type IIS digestion cuts at enzyme geometry, independent of plasmid origin.
 //
-// verif:bound C10 enzymes BsaI, BbsI, BtgZI and a custom non-palindromic 3-letter site (GAC, skip 1, overhang 2); 0..2 (quick) / 0..3 linear, 0..4 circular (thorough) recognition sites in either orientation; gaps between consecutive cuts from {minimum allowed, minimum+1 / +3}; linear parts with 0..(skip+overhang+2) bases before the first / after the last site; circular parts at EVERY rotation offset of the stored sequence
+// verif:bound C10 enzymes BsaI, BbsI, BtgZI and a custom non-palindromic 3-letter site (GAC, skip 1, overhang 2); 0..2 (quick) / 0..3 (thorough) recognition sites in either orientation; gaps between consecutive cuts from {minimum allowed, minimum+1 / +3}; linear parts with 0..(skip+overhang+2) bases before the first / after the last site; circular parts at EVERY rotation offset of the stored sequence
 // verif:bound C10 filler bases symbolic over {A,T,a,t} (no accidental site can arise; site letters upper or lower case): one path decides a layout for every filler
 // verif:assume C10 precondition (the property's restriction made precise): recognition-site occurrences and overhang windows are pairwise disjoint and consecutive cuts are at least two overhang lengths apart (cyclically for circular parts)
 // verif:bound C10 outside the claim: more than 3 sites, sequences longer than ~80 bases, filler containing G/C (accidental sites), non-directional digestion
@@ -62,8 +62,8 @@ type c10Site struct {
 // c10Layout builds a sequence: lead + site + gap + site + ... + trail.
 func c10Layout(e c10Enz, circular bool) (seq string, sites []c10Site) {
 	n := vChoice(vTier(3, 4))
-	if circular && vTier(0, 1) == 1 {
-		n = vChoice(5)
+	if circular && vTier(0, 1) == 1 && e.skip < 10 {
+		n = vChoice(4)
 	}
 	minGap := 2*e.skip + 2*e.oh // cuts of a facing pair at least two overhangs apart, windows disjoint
 	lead := 0
